@@ -22,14 +22,17 @@
 //! <content> = g<id> (generic bytes) | m<k> (data-map chunk of data set k) | e<k>.<i> (i-th encrypted chunk of set k)
 //! <reply>   = nf | to | km | nc=<rec> | dn=<rec> | ok=<rec> | sp=<rec>,<rec>,...   (split: `result_map.values()` iterates in
 //!             exactly the listed order — the harness rebuilds the HashMap until it does)
-//! <rec>     = <hdr>:<body>[@<key>];  hdr = c (Chunk) | s (Scratchpad) | o (ChunkWithPayment) | p (ScratchpadWithPayment) | x (unparsable)
+//! <rec>     = <hdr>:<body>[@<key>];  hdr = c (Chunk) | s (Scratchpad) | r (Register) | t (Transaction) | o (ChunkWithPayment) | p (ScratchpadWithPayment) | x (unparsable)
 //!             `Record.key` of the reply (chosen by the holder, compared with the queried key by nobody below the client):
 //!             absent = the requested key | @own = the key the body itself determines (chunk: hash of its content, pad: its
 //!             owner's scratchpad address; the requested key for J/Z) | @<content> = that chunk's key | @v<owner> = that vault key
-//!             body = <content> | P<owner>.<counter>.<sig>.<ver> | J (junk) | Z (nothing after the header)
+//!             body = <content> | P<owner>.<counter>.<sig>.<ver>[.<enc>] | R<k>.<v|w> | T<id>+<id>… | J (junk) | Z (nothing after the header)
+//!             P….<enc>: `data_encoding` as delivered (default 7 = what every owner of this universe writes; the signature does not cover it)
+//!             R<k>.<sig>: SignedRegister number k (its own address, never a vault or chunk key), validly signed (v) or by a stranger (w)
+//!             T<ids>: a `Vec<Transaction>` of the transactions with these ids
 //!             sig = v (signed by <owner>) | n (no signature) | w (signed by a stranger) | i (valid for counter-1, counter inflated)
 //!             pad data is always encrypted to the *requested* key so decryption never masks a missing check
-//! Output: chunk -> ok <content>|ok ? ; data -> ok d<k>|ok ? ; vault -> ok <owner>.<counter>.<ver> ; or err <class>
+//! Output: chunk -> ok <content>|ok ? ; data -> ok d<k>|ok ? ; vault -> ok <owner>.<counter>.<ver> t=<content type returned> ; or err <class>
 use ant_evm::EvmNetwork;
 use ant_networking::verif::{LocalSwarmCmd, NetworkSwarmCmd};
 use ant_networking::{GetRecordError, Network, NetworkError};
@@ -56,6 +59,9 @@ const N_SETS: u64 = 6;
 const CHUNK_CLASSES: [[usize; 3]; 6] = [[0, 1, 2], [0, 1, 2], [0, 1, 2], [0, 0, 0], [0, 0, 0], [0, 1, 2]];
 const N_OWNERS: u64 = 3;
 const STRANGER: u64 = 9;
+/// the content type every owner of this universe gives its vault when writing it
+const OWNER_ENCODING: u64 = 7;
+const N_REGS: u64 = 3;
 
 type GetResult = std::result::Result<Record, GetRecordError>;
 
@@ -194,9 +200,10 @@ fn build_pad(desc: &str, target: u64) -> Option<Scratchpad> {
 
 fn build_pad_uncached(desc: &str, target: u64) -> Option<Scratchpad> {
     let p: Vec<&str> = desc.strip_prefix('P')?.split('.').collect();
-    if p.len() != 4 {
+    if p.len() != 4 && p.len() != 5 {
         return None;
     }
+    let data_encoding: u64 = if p.len() == 5 { p[4].parse().ok()? } else { OWNER_ENCODING };
     let owner: u64 = p[0].parse().ok()?;
     let ctr: u64 = p[1].parse().ok()?;
     let ver: u64 = p[3].parse().ok()?;
@@ -215,13 +222,47 @@ fn build_pad_uncached(desc: &str, target: u64) -> Option<Scratchpad> {
     };
     let m = PadMirror {
         address: ScratchpadAddress::new(bls_sk(owner).public_key()),
-        data_encoding: 7,
+        data_encoding,
         encrypted_data: enc,
         counter: ctr,
         signature,
     };
     let bytes = rmp_serde::to_vec(&m).ok()?;
     rmp_serde::from_slice(&bytes).ok()
+}
+
+/// `R<k>.<v|w>`: a SignedRegister of its own address (owner key 20+k), signed by that owner or by a stranger
+fn build_reg(desc: &str) -> Option<ant_registers::SignedRegister> {
+    let (k, sig) = desc.strip_prefix('R')?.split_once('.')?;
+    let k: u64 = k.parse().ok()?;
+    if k >= N_REGS {
+        return None;
+    }
+    let owner = bls_sk(20 + k);
+    let reg = ant_registers::Register::new(owner.public_key(), XorName(sha3(format!("verif-register-{k}").as_bytes())), ant_registers::Permissions::AnyoneCanWrite);
+    let bytes = reg.bytes().ok()?;
+    let signature = match sig {
+        "v" => owner.sign(bytes),
+        "w" => bls_sk(STRANGER).sign(bytes),
+        _ => return None,
+    };
+    Some(ant_registers::SignedRegister::new(reg, signature, Default::default()))
+}
+
+/// `T<id>+<id>…`: the transactions with these ids (owner key 30+id, content = the id), each signed by its owner
+fn build_txs(desc: &str) -> Option<Vec<ant_protocol::storage::Transaction>> {
+    let ids: Vec<u64> = desc.strip_prefix('T')?.split('+').map(|x| x.parse().ok()).collect::<Option<Vec<_>>>()?;
+    if ids.is_empty() || ids.len() > 4 || ids.iter().any(|i| *i > 9) {
+        return None;
+    }
+    Some(
+        ids.iter()
+            .map(|i| {
+                let sk = bls_sk(30 + i);
+                ant_protocol::storage::Transaction::new(sk.public_key(), vec![], [*i as u8; 32], vec![], &sk)
+            })
+            .collect(),
+    )
 }
 
 fn vault_key(owner: u64) -> RecordKey {
@@ -245,7 +286,7 @@ fn rec_key(w: &World, body: &str, spec: Option<&str>, requested: &RecordKey) -> 
         Some("own") => {
             if let Some(p) = body.strip_prefix('P') {
                 Some(vault_key(p.split('.').next()?.parse().ok()?))
-            } else if body == "J" || body == "Z" {
+            } else if body == "J" || body == "Z" || body.starts_with('R') || body.starts_with('T') {
                 Some(requested.clone())
             } else {
                 Some(chunk_key(&w.content(body)?))
@@ -265,6 +306,8 @@ fn build_rec(w: &World, desc: &str, key: &RecordKey, target: u64) -> Option<Reco
     let mut value: Vec<u8> = match h {
         "c" => RecordHeader { kind: RecordKind::Chunk }.try_serialize().ok()?.to_vec(),
         "s" => RecordHeader { kind: RecordKind::Scratchpad }.try_serialize().ok()?.to_vec(),
+        "r" => RecordHeader { kind: RecordKind::Register }.try_serialize().ok()?.to_vec(),
+        "t" => RecordHeader { kind: RecordKind::Transaction }.try_serialize().ok()?.to_vec(),
         "o" => RecordHeader { kind: RecordKind::ChunkWithPayment }.try_serialize().ok()?.to_vec(),
         "p" => RecordHeader { kind: RecordKind::ScratchpadWithPayment }.try_serialize().ok()?.to_vec(),
         "x" => vec![0x91, 0x63],
@@ -275,6 +318,10 @@ fn build_rec(w: &World, desc: &str, key: &RecordKey, target: u64) -> Option<Reco
     } else if body == "Z" {
     } else if body.starts_with('P') {
         value.extend_from_slice(&rmp_serde::to_vec(&build_pad(body, target)?).ok()?);
+    } else if body.starts_with('R') {
+        value.extend_from_slice(&rmp_serde::to_vec(&build_reg(body)?).ok()?);
+    } else if body.starts_with('T') {
+        value.extend_from_slice(&rmp_serde::to_vec(&build_txs(body)?).ok()?);
     } else {
         let c = ant_protocol::storage::Chunk::new(Bytes::from(w.content(body)?));
         value.extend_from_slice(&rmp_serde::to_vec(&c).ok()?);
@@ -572,10 +619,10 @@ fn exec(w: &World, rt: &tokio::runtime::Runtime, line: &str) -> String {
             ));
             match res {
                 None => "stuck".into(),
-                Some(Ok((data, _enc))) => {
+                Some(Ok((data, enc))) => {
                     let s = String::from_utf8_lossy(&data).to_string();
                     match s.strip_prefix("pad-") {
-                        Some(r) => format!("ok {}", r.replace('-', ".")),
+                        Some(r) => format!("ok {} t={enc}", r.replace('-', ".")),
                         None => "ok ?".into(),
                     }
                 }
@@ -646,6 +693,32 @@ struct PadD {
     sig: String,
     ver: u64,
     hdr: String,
+    enc: u64,
+}
+
+/// replay mode (witnesses of known findings, candidates of the model search): the clauses that are known to be false of
+/// the code are raised instead of counted
+static STRICT: std::sync::atomic::AtomicBool = std::sync::atomic::AtomicBool::new(false);
+
+/// `TxDictates` of the Lean model, from the descriptors: the first record with a parsable header is a `Transaction`
+/// record and the transaction records carry more than one transaction (known finding K-k-wrongkind-tx-dictates)
+fn tx_dictates(reply: &str) -> bool {
+    if !reply.starts_with("sp=") {
+        return false;
+    }
+    let recs = recs_of_reply(reply);
+    if recs.len() < 2 {
+        return false;
+    }
+    let parsed: Vec<(&str, &str)> = recs.iter().filter_map(|r| split_rec(r).map(|(h, b, _)| (h, b))).collect();
+    let first = parsed.iter().find(|(h, b)| *h != "x" && *b != "Z");
+    if first.map(|(h, _)| *h) != Some("t") {
+        return false;
+    }
+    let mut ids: Vec<&str> = parsed.iter().filter(|(h, b)| *h == "t" && b.starts_with('T')).flat_map(|(_, b)| b[1..].split('+')).collect();
+    ids.sort();
+    ids.dedup();
+    ids.len() > 1
 }
 fn pads_of_reply(reply: &str) -> Vec<PadD> {
     let mut v = vec![];
@@ -656,13 +729,14 @@ fn pads_of_reply(reply: &str) -> Vec<PadD> {
         if let Some((h, b, _)) = split_rec(&r) {
             if let Some(p) = b.strip_prefix('P') {
                 let f: Vec<&str> = p.split('.').collect();
-                if f.len() == 4 {
+                if f.len() == 4 || f.len() == 5 {
                     v.push(PadD {
                         owner: f[0].parse().unwrap_or(99),
                         ctr: f[1].parse().unwrap_or(0),
                         sig: f[2].to_string(),
                         ver: f[3].parse().unwrap_or(0),
                         hdr: h.to_string(),
+                        enc: f.get(4).and_then(|e| e.parse().ok()).unwrap_or(OWNER_ENCODING),
                     });
                 }
             }
@@ -725,10 +799,18 @@ fn oracle(w: &World, line: &str, out_line: &str, out: &mut Out) {
                 if !auth.is_empty() {
                     let best = auth.iter().filter(|a| a.2).map(|a| a.0).max().unwrap_or(0);
                     let ok = match out_line.strip_prefix("ok ") {
-                        Some(got) => auth.iter().any(|(c, id, _)| id == got && *c >= best),
+                        Some(got) => {
+                            let got = got.split(" t=").next().unwrap_or(got);
+                            auth.iter().any(|(c, id, _)| id == got && *c >= best)
+                        }
                         None => false,
                     };
-                    if !ok {
+                    // one holder's Transaction record dictating the kind: known to defeat the read (K-k-wrongkind-tx-dictates)
+                    let known_hole = tx_dictates(reply) && !STRICT.load(std::sync::atomic::Ordering::Relaxed);
+                    if !ok && known_hole {
+                        out.count("vault:tx-dictates-kind");
+                    }
+                    if !ok && !known_hole {
                         let mut ids: Vec<String> = auth.iter().map(|a| a.1.clone()).collect();
                         ids.sort();
                         out.oracle_fail(
@@ -741,6 +823,23 @@ fn oracle(w: &World, line: &str, out_line: &str, out: &mut Out) {
                 }
             }
             if let Some(got) = out_line.strip_prefix("ok ") {
+                let (got, tenc) = match got.split_once(" t=") {
+                    Some((g, t)) => (g, t.parse::<u64>().ok()),
+                    None => (got, None),
+                };
+                // the content type handed to the caller must be the one the owner wrote (every owner here writes
+                // OWNER_ENCODING); the signature does not cover it: known finding K-k-content-type-unsigned
+                if tenc != Some(OWNER_ENCODING) {
+                    if STRICT.load(std::sync::atomic::Ordering::Relaxed) || !pads.iter().any(|p| Some(p.enc) == tenc) {
+                        out.oracle_fail(
+                            "vault-content-type",
+                            line,
+                            &format!("fetch_and_decrypt_vault(key {key}) returned content type {tenc:?}; the owner wrote {OWNER_ENCODING}: the content type is whatever the answering holder put into the pad"),
+                        );
+                    } else {
+                        out.count("vault:content-type-forged");
+                    }
+                }
                 let f: Vec<u64> = got.split('.').filter_map(|x| x.parse().ok()).collect();
                 if f.len() != 3 {
                     out.oracle_fail("vault-authentic", line, &format!("returned vault content {got} is not any received pad"));
@@ -848,7 +947,7 @@ fn exec_vaultperm(w: &World, rt: &tokio::runtime::Runtime, line: &str, out: &mut
         match split_rec(r) {
             Some(("s", b, _)) if b.starts_with('P') => {
                 let f: Vec<&str> = b[1..].split('.').collect();
-                if f.len() != 4 || f[0].parse::<u64>().is_err() {
+                if (f.len() != 4 && f.len() != 5) || f[0].parse::<u64>().is_err() {
                     eligible = false;
                 } else if f[0].parse::<u64>().ok() == Some(key_n) && f[2] == "v" {
                     auth_ctrs.push(f[1].parse().unwrap_or(0));
@@ -897,6 +996,10 @@ fn gen_versions(rng: &mut Rng, key: u64) -> Vec<String> {
         let c = if rng.chance(2, 3) { rng.range(9, 20) } else { rng.range(1, 9) };
         recs.push(format!("s:P{other}.{c}.{}.{}", rng.pick(&["v", "v", "v", "n"]), rng.below(3)));
     }
+    // one faulty holder answering with a record of another kind (a foreign register, transactions)
+    if recs.len() < 6 && rng.chance(1, 3) {
+        recs.push(gen_wrong_kind_rec(rng));
+    }
     rng.shuffle(&mut recs);
     recs
 }
@@ -915,13 +1018,15 @@ fn gen_pad(rng: &mut Rng, key: u64) -> String {
     let owner = if rng.chance(2, 3) { key } else { rng.below(N_OWNERS) };
     let ctr = if rng.chance(1, 8) { *rng.pick(&[0u64, u64::MAX, u64::MAX - 1]) } else { rng.range(1, 6) };
     let sig = if rng.chance(1, 2) { "v" } else { *rng.pick(&["n", "w", "i", "v"]) };
-    format!("P{owner}.{ctr}.{sig}.{}", rng.below(3))
+    // one in twelve: the holder changed the content type (outside the signature)
+    let enc = if rng.chance(1, 12) { format!(".{}", rng.pick(&[0u64, 8, 9, u64::MAX])) } else { String::new() };
+    format!("P{owner}.{ctr}.{sig}.{}{enc}", rng.below(3))
 }
 fn gen_hdr(rng: &mut Rng, likely: &str) -> String {
     if rng.chance(3, 4) {
         likely.to_string()
     } else {
-        rng.pick(&["c", "s", "o", "p", "x"]).to_string()
+        rng.pick(&["c", "s", "o", "p", "x", "r", "t", "r", "t"]).to_string()
     }
 }
 /// a record for a chunk read whose honest content would be `want`
@@ -934,7 +1039,26 @@ fn gen_key_suffix(rng: &mut Rng) -> String {
         _ => format!("@v{}", rng.below(N_OWNERS)),
     }
 }
+/// a register or a list of transactions as a record body
+fn gen_wrong_kind_body(rng: &mut Rng) -> String {
+    if rng.chance(1, 2) {
+        format!("R{}.{}", rng.below(N_REGS), rng.pick(&["v", "v", "w"]))
+    } else {
+        let n = rng.range(1, 3);
+        let ids: Vec<String> = (0..n).map(|_| rng.below(4).to_string()).collect();
+        format!("T{}", ids.join("+"))
+    }
+}
+/// a whole wrong-kind record as ONE faulty holder would send it: a validly signed register of another address, or a
+/// transaction record
+fn gen_wrong_kind_rec(rng: &mut Rng) -> String {
+    let b = gen_wrong_kind_body(rng);
+    format!("{}:{b}", if b.starts_with('R') { "r" } else { "t" })
+}
 fn gen_chunk_rec(rng: &mut Rng, want: &str) -> String {
+    if rng.chance(1, 12) {
+        return format!("{}{}", gen_wrong_kind_rec(rng), gen_key_suffix(rng));
+    }
     let body = match rng.below(10) {
         0..=4 => want.to_string(),
         5 | 6 => gen_content(rng),
@@ -945,6 +1069,12 @@ fn gen_chunk_rec(rng: &mut Rng, want: &str) -> String {
     format!("{}:{}{}", gen_hdr(rng, "c"), body, gen_key_suffix(rng))
 }
 fn gen_pad_rec(rng: &mut Rng, key: u64) -> String {
+    if rng.chance(1, 8) {
+        return format!("{}{}", gen_wrong_kind_rec(rng), gen_key_suffix(rng));
+    }
+    if rng.chance(1, 16) {
+        return format!("{}:{}", gen_hdr(rng, "s"), gen_wrong_kind_body(rng));
+    }
     let body = match rng.below(12) {
         0..=8 => gen_pad(rng, key),
         9 => "J".into(),
@@ -1109,6 +1239,29 @@ const CORPUS: &[&str] = &[
     "vault 1 sp=s:P1.4.v.1,s:P0.18446744073709551615.v.0",
     "vaultperm 0 sp=s:P0.3.v.0,s:P1.9.v.1,s:P0.5.v.2",
     "vaultperm 2 sp=s:P2.2.v.0,s:P0.9.v.1,s:P1.9.n.1,s:P2.7.i.2",
+    // ONE holder answers the vault key with a record of another kind (visiting order = listed order): a foreign validly
+    // signed register first (rejected by the key check of the Register arm since the fix), a single transaction first
+    "vault 0 sp=r:R0.v,s:P0.3.v.0",
+    "vault 0 sp=r:R0.v,s:P0.3.v.0,s:P0.3.v.0@own",
+    "vault 0 sp=r:R0.w,s:P0.3.v.0",
+    "vault 0 sp=s:P0.3.v.0,r:R0.v",
+    "vault 0 sp=t:T1,s:P0.3.v.0",
+    "vault 0 sp=s:P0.3.v.0,t:T1+2",
+    "vault 0 sp=r:R1.v,t:T1+2,s:P0.3.v.0,s:P0.5.v.1",
+    "vault 0 ok=r:R0.v",
+    "vault 0 ok=t:T1+2",
+    "vault 0 ok=s:R0.v",
+    "chunk g0 sp=r:R0.v,c:g0",
+    "chunk g0 sp=t:T1+2,c:g0",
+    "chunk g0 ok=t:T1",
+    "vaultperm 0 sp=r:R0.v,s:P0.3.v.0,s:P0.5.v.1",
+    // the content type is outside the signature: what the holder puts there is what the caller gets (counted, K-k-content-type-unsigned)
+    "vault 0 ok=s:P0.3.v.0.7",
+    "vault 0 ok=s:P0.3.v.0.9",
+    "vault 0 sp=s:P0.3.v.0.9,s:P0.2.v.1",
+    // K-k-wrongkind-tx-dictates (counted): a Transaction record with two transactions sorts first and dictates the kind
+    "vault 0 sp=t:T1+2,s:P0.3.v.0",
+    "vault 0 sp=t:T1,t:T2,s:P0.3.v.0,s:P0.3.v.0@own",
     // data with repeated content: several data-map entries name one address
     "data 3 o=0.0.0 m=ok=c:m3 e0=ok=c:e3.0 e1=ok=c:e3.0 e2=ok=c:e3.0",
     "data 3 o=2.1.0 m=ok=c:m3 e0=ok=c:e3.0 e1=nf e2=nf",
@@ -1126,6 +1279,7 @@ fn main() {
     let w = World::new();
     std::panic::set_hook(Box::new(|_| {}));
     let rt = tokio::runtime::Builder::new_current_thread().enable_all().build().expect("runtime");
+    STRICT.store(args.replay.is_some(), std::sync::atomic::Ordering::Relaxed);
     let lines: Vec<String> = match &args.replay {
         Some(p) => common::read_lines(p),
         None => {
